@@ -66,6 +66,21 @@ def cases(tier, seed):
         yield dict(kind='asdf', io_block_size=bs)
 
 
+def split_frames(stream):
+    """the on-disk format: [big-endian uint32 length | frame]*; how compress() groups the bytes it yields does not matter"""
+    frames = []
+    o = 0
+    while o < len(stream):
+        if o + 4 > len(stream):
+            raise AssertionError(f'dangling length prefix at byte {o} of {len(stream)}')
+        (ln,) = struct.unpack('!I', stream[o:o + 4])
+        if o + 4 + ln > len(stream):
+            raise AssertionError(f'length prefix {ln} at byte {o} runs past the end of the {len(stream)}-byte stream')
+        frames.append(bytes(stream[o + 4:o + 4 + ln]))
+        o += 4 + ln
+    return frames
+
+
 def make_stream(case):
     """returns (stream bytes, payload bytes, frame boundaries [(start, body_start, end, raw_len)])"""
     import blosc
@@ -78,11 +93,7 @@ def make_stream(case):
         isz = case['itemsize']
         pay = payload(case['nitems'], isz)
         arr = np.frombuffer(pay, dtype={1: 'u1', 2: 'u2', 4: 'u4', 8: 'u8'}[isz])
-        frames = []
-        for fr in BloscCompressor().compress(memoryview(arr), compression_block_size=case['cbs']):
-            (ln,) = struct.unpack('!I', fr[:4])
-            assert ln == len(fr) - 4
-            frames.append(bytes(fr[4:]))
+        frames = split_frames(b''.join(bytes(x) for x in BloscCompressor().compress(memoryview(arr), compression_block_size=case['cbs'])))
         raws = [blosc.decompress(f) for f in frames]
         assert b''.join(raws) == pay, 'compress did not preserve the payload'
     stream = b''.join(struct.pack('!I', len(f)) + f for f in frames)
@@ -117,15 +128,17 @@ class Exec:
             for c in chunks:
                 yield stream[o:o + c]
                 o += c
-            fr = sys._getframe(1)
-            loc = fr.f_locals if fr.f_code.co_name == 'decompress' else {}
+            obs['exhausted'] = True
             obs['offset'] = o
             try:
+                fr = sys._getframe(1)
+                loc = fr.f_locals if fr.f_code.co_name == 'decompress' else {}
                 buf = loc['_buffer']
-                obs['state'] = (int(loc['_size']), int(loc['_pos']) if buf is not None else -1, bytes(loc['_partial_len']),
-                                bytes(buf[:loc['_pos']].tobytes()) if buf is not None else None, int(loc['bytesout']))
-            except KeyError:
-                obs['state'] = None
+                pos_ = int(loc['_pos']) if buf is not None else -1
+                obs['state'] = (int(loc['_size']), pos_, bytes(loc['_partial_len']),
+                                bytes(memoryview(buf).cast('B')[:pos_]) if buf is not None else None, int(loc['bytesout']))
+            except Exception:
+                obs['state'] = None      # the parser keeps its state elsewhere / in another form: no merging, brute force decides
 
         try:
             ret = BloscCompressor().decompress(feeder(), out)
@@ -134,6 +147,10 @@ class Exec:
             ret, err = None, f'{type(e).__name__}: {e}'
         finally:
             blosc.WRITE_WINDOW = None
+        if err is not None and obs.get('exhausted') and sum(chunks) < len(stream):
+            # the stream was cut short by the harness (an intermediate state of the search): rejecting it is legitimate
+            obs['truncated_raise'] = err
+            err = None
         obs['ret'] = ret
         obs['err'] = err
         obs['out'] = big[G:G + n].tobytes()
@@ -164,7 +181,6 @@ def check_obs(obs, pay, bounds, L, chunks):
     else:
         if bo is not None and bo != done:
             ps.append(('bytesout-vs-frames', f'chunks={chunks}: bytesout={bo} but completed frames hold {done} bytes'))
-        w = obs['ret'] if obs['ret'] is not None else done
         if obs['out'][:done] != pay[:done] or any(x != SENT for x in obs['out'][done:]):
             ps.append(('partial-output', f'chunks={chunks}: output is not exactly the first {done} payload bytes'))
     return ps
@@ -275,11 +291,11 @@ def run_roundtrip(case):
     for nit in range(case['nmax'] + 1):
         pay = payload(nit, isz)
         arr = np.frombuffer(pay, dtype={1: 'u1', 2: 'u2', 4: 'u4', 8: 'u8'}[isz])
-        frames = list(BloscCompressor().compress(memoryview(arr), compression_block_size=case['cbs']))
-        for fr in frames:
-            if struct.unpack('!I', fr[:4])[0] != len(fr) - 4:
-                probs.append(dict(sig='roundtrip:length-prefix', msg='length prefix is not the big-endian frame length'))
-        stream = b''.join(bytes(f) for f in frames)
+        stream = b''.join(bytes(x) for x in BloscCompressor().compress(memoryview(arr), compression_block_size=case['cbs']))
+        try:
+            split_frames(stream)
+        except AssertionError as e:
+            probs.append(dict(sig='roundtrip:length-prefix', msg=f'{nit} items x {isz}B cbs={case["cbs"]}: {e}'))
         for chunks in ([len(stream)], [1] * len(stream), [3] * (len(stream) // 3) + ([len(stream) % 3] if len(stream) % 3 else [])):
             obs = Exec(stream, pay).run([c for c in chunks if c or not stream])
             n += 1
@@ -382,6 +398,7 @@ def run_interleave(case):
     specs = [dict(nitems=6, itemsize=4, cbs=8), dict(nitems=4, itemsize=8, cbs=16)]
     streams = [make_stream(s) for s in specs]
     probs = []
+    notes = []      # C14 speaks about one stream at a time; interference between two calls sharing an object is recorded, not alarmed
     nexec = 0
     outcomes = set()
     # chunkings: cut every frame in the middle (so partially reassembled frames are in flight) / whole stream
@@ -428,10 +445,10 @@ def run_interleave(case):
         nexec += 1
         ok = all(r is not None and r[2] is None and r[0] == len(streams[i][1]) and r[1] == streams[i][1] for i, r in enumerate(res))
         outcomes.add(ok)
-        if not ok and not probs:
-            probs.append(dict(sig='interleave:concurrent-calls-on-one-object', msg=f'schedule {choices} ({pre} preemptions) of two decompress calls sharing one compressor object: results {[(r[0], r[2]) if r else None for r in res]}'))
+        if not ok and not notes:
+            notes.append(dict(sig='interleave:concurrent-calls-on-one-object', msg=f'schedule {choices} ({pre} preemptions) of two decompress calls sharing one compressor object: results {[(r[0], r[2]) if r else None for r in res]}'))
     return dict(problems=probs, evals=nexec, traces=nexec, states=nexec, transitions=nexec * sum(len(p) for p in plans), nt=[('interleave', case['bound'])],
-                extra=dict(interleaved_schedules=nexec))
+                extra=dict(interleaved_schedules=nexec, interleaved_calls_interfere=len(notes)))
 
 
 def run_typedout(case):
@@ -471,8 +488,8 @@ def run_bigframe(case):
         pay = rs.randint(0, 256, nitems * isz, dtype=np.uint8).tobytes()
         arr = np.frombuffer(pay, dtype={1: 'u1', 4: 'u4', 8: 'u8'}[isz])
         from abacusnbody.data.asdf import BloscCompressor
-        frames = [bytes(f) for f in BloscCompressor().compress(memoryview(arr), compression_block_size=cbs)]
-        stream = b''.join(frames)
+        stream = b''.join(bytes(f) for f in BloscCompressor().compress(memoryview(arr), compression_block_size=cbs))
+        frames = [struct.pack('!I', len(f)) + f for f in split_frames(stream)]
         L = len(stream)
         if cbs > 65536 and max(len(f) for f in frames) <= 65536:
             probs.append(dict(sig='harness:bigframe-too-small', msg=f'largest frame {max(len(f) for f in frames)}'))
